@@ -425,14 +425,9 @@ def _calls():
         return long_ if c["long"] else short
 
     def drop_new(*conts):
-        """remove whatever the accepted call created under the names the table uses"""
-        def reset(c):
-            for owner, cont in conts:
-                lst = getattr(c[owner], cont)
-                for x in list(lst):
-                    if x.name.startswith("sweep-new"):
-                        del lst[x.name]
-        return reset
+        """after an accepted creating / copying call the scene is rebuilt (a copy of the template: cheaper than
+        deleting what was created - nixio's deletion visits the whole file)"""
+        return None
 
     def drop_dims(key):
         return lambda c: c[key].delete_dimensions()
@@ -741,7 +736,7 @@ DATA_PREFIXES = ("Tag.position", "Tag.extent", "Tag.units", "MultiTag.units", "D
 
 
 # respellings every argument target sees in every run (those that exist for its valid value): one of each container /
-# scalar / text / entity spelling; the other respellings rotate (a random 30 of the ~150, of which a fifth apply)
+# scalar / text / entity spelling; the other respellings rotate (a random 12 of the ~120, of which a fifth apply)
 RE_CORE = ["re:" + r for r in (
     "numseq:tuple", "numseq:ndarray", "numseq:ndarray-f8", "numseq:ndarray-object", "numseq:generator", "numseq:np-ints",
     "numseq:floats", "numseq:fractions", "numseq:sequence-class", "numseq:duck-class", "numseq:scalar-of-single", "numseq:nested",
@@ -792,7 +787,7 @@ def plan(tier, seed, rng, broken=False):
                     out.append((long, t, respell + list(CORE) + rng.sample(rest, 12 if is_rollback(t) else 40)))
                 else:
                     others = [r for r in respell if r not in RE_CORE]
-                    out.append((long, t, RE_CORE + rng.sample(others, 30) + rng.sample(CORE, 2)))
+                    out.append((long, t, RE_CORE + rng.sample(others, 12) + rng.sample(CORE, 2)))
             continue
         if not big and not is_data(t) and (i + seed) % 4 != 0:
             continue
